@@ -1935,6 +1935,19 @@ ASSUMPTIONS = [
 
 def preload():
     import regions  # noqa
+    # every submodule (a one-time import-time warning of a lazily imported
+    # module must not distinguish a history from a pristine process)
+    import importlib
+    import pkgutil
+    for mi in pkgutil.walk_packages(regions.__path__, 'regions.'):
+        if '.tests' in mi.name or mi.name.endswith('conftest'):
+            continue
+        try:
+            importlib.import_module(mi.name)
+        except Exception:
+            pass
+    import matplotlib.pyplot  # noqa  (plot() imports it)
+    import matplotlib.widgets  # noqa
     import astropy.io.fits  # noqa
     import astropy.table  # noqa
     import astropy.wcs  # noqa
